@@ -734,17 +734,31 @@ class Exec:
                     out += after + frame['break']
             return out
         if k == 'switch':
-            # explore each case label entry point (fallthrough preserved by executing the remainder)
+            # explore each case label entry point (fallthrough preserved by executing the remainder); the
+            # conditions are ordinary comparisons `value == label`, so a switch and an if/else chain over the
+            # same value produce the same path conditions
             body = ir.stmt_list(s['body'])
             out = []
             for p in paths:
                 cv = self.ev(s['cond'], p)
-                entries = [i for i, c in enumerate(body) if c['k'] in ('case', 'default')]
+                labels = []      # (index in body, [label polys] or 'default')
+                for i, c in enumerate(body):
+                    node = c
+                    labs = []
+                    is_default = False
+                    while node['k'] in ('case', 'default'):
+                        if node['k'] == 'case':
+                            labs.append(as_poly(self.ev(node['v'], p)))
+                        else:
+                            is_default = True
+                        node = node['sub']
+                    if labs or is_default:
+                        labels.append((i, labs, is_default))
+                all_labels = [l for _, labs, _ in labels for l in labs]
                 frames = getattr(self, '_frames', [])
-                for i in entries:
-                    q = p.fork()
-                    lab = body[i]
-                    q.conds.append((Opaque('switch(%s)==%s' % (self.txt(cv), ir.show(lab['v']) if lab['k'] == 'case' else 'default')), True))
+                cvp = as_poly(cv)
+
+                def run_from(i, q):
                     frame = {'break': [], 'continue': None}
                     frames.append(frame)
                     self._frames = frames
@@ -754,9 +768,39 @@ class Exec:
                             c = c['sub']
                         cur = self.stmt(c, cur)
                     frames.pop()
-                    out += cur + frame['break']
-                if not any(c['k'] == 'default' for c in body):
-                    out.append(p)
+                    return cur + frame['break']
+                has_default = False
+                for i, labs, is_default in labels:
+                    for l in labs:
+                        q = p.fork()
+                        feasible = True
+                        for other in all_labels:
+                            if other is l:
+                                continue
+                        t, f = self.branch(Cmp('==', cvp, l), q)
+                        for qq in t:
+                            out += run_from(i, qq)
+                    if is_default:
+                        has_default = True
+                        q = p.fork()
+                        cur = [q]
+                        for l in all_labels:
+                            nxt = []
+                            for qq in cur:
+                                t, f = self.branch(Cmp('==', cvp, l), qq)
+                                nxt += f
+                            cur = nxt
+                        for qq in cur:
+                            out += run_from(i, qq)
+                if not has_default:
+                    cur = [p.fork()]
+                    for l in all_labels:
+                        nxt = []
+                        for qq in cur:
+                            t, f = self.branch(Cmp('==', cvp, l), qq)
+                            nxt += f
+                        cur = nxt
+                    out += cur
             return out
         if k in ('break', 'continue'):
             frames = getattr(self, '_frames', [])
